@@ -649,7 +649,9 @@ fn build_for(lhs: &AstNode, rhs: &AstNode) -> Result<Evaluator> {
           expression_evaluator.add_single(name.clone(), value);
         }
         IterationContextEvaluator::Range(name, evaluator_range_start, evaluator_range_end) => {
-          expression_evaluator.add_range(name.clone(), evaluator_range_start(scope), evaluator_range_end(scope));
+          if !expression_evaluator.add_range(name.clone(), evaluator_range_start(scope), evaluator_range_end(scope)) {
+            return value_null!("expected integer numbers as the ends of an iteration range");
+          }
         }
       }
     }
